@@ -494,6 +494,7 @@ def ops_for(rng, c, absent=True):
         q = [("".join(ch.swapcase() if ord(ch) > 127 and len(ch.swapcase()) == 1 else ch for ch in n)) for n in path]
         if q != path and rng.random() < 0.5:
             ops.append(("g", q, None))
+            c.nodemand = getattr(c, "nodemand", set()) | {tuple(q)}
     if order and rng.random() < 0.5:           # read again (sector cache already filled)
         path = names_path(c, order[0])
         ops.append(("g", path, exp_g(path)))
@@ -718,6 +719,8 @@ def run_cases(ctx, cases, rng):
             sf = sm.split(";") if sm else []
             for (a, e), x in zip(gops, sf):
                 tr = {"none": "err:notfound", "storage": None, "root": None}.get(x, x)
+                if tuple(a) in getattr(c, "nodemand", ()):
+                    continue                      # a non-ASCII letter in the other case: nothing demanded (notes/C13.md)
                 if tr != e:
                     ctx.disagreements.append({"function": "spec_path(generator vs Cfb.spec_path)", "case": gl[:20000], "impl": "(n/a)",
                                               "model": "path %r: Cfb.spec_path says %s, the generator %s" % (a, x[:100], (e or "None")[:100])})
